@@ -181,6 +181,52 @@ func checkC08(c *Ctx, r *Report) {
 	ruleNoIRMutation(c, r, "C08.c")
 	checkManagerPassThrough(c, r, "C08.a")
 
+	// closure of security requirements: a name used by an operation is a declared scheme (shared with C04.b)
+	checkSchemeMembership(c, r, "C08.f")
+	// info.contact / info.license are copied whenever they are configured (nil test on the section itself)
+	for _, e := range emitters {
+		fnk := e.Pkg + ".GenerateSpec"
+		fi := need(c, r, "C08.c", fnk)
+		if fi == nil {
+			continue
+		}
+		viol := ""
+		var sites []string
+		n := 0
+		allInstrs(fi.SSA, false, func(_ *ssa.Function, _ *ssa.BasicBlock, _ int, ins ssa.Instruction) {
+			st, ok := ins.(*ssa.Store)
+			if !ok {
+				return
+			}
+			fa, ok := st.Addr.(*ssa.FieldAddr)
+			if !ok {
+				return
+			}
+			fv := structFieldVar(fa.X.Type(), fa.Field)
+			if fv == nil || (fv.Name() != "Contact" && fv.Name() != "License") {
+				return
+			}
+			n++
+			sites = append(sites, w.pos(st.Pos()))
+			okGuard := false
+			for _, f := range guardsOf(st) {
+				cnd, p := unwrapNot(f.Cond, f.Pol)
+				if bo, isB := cnd.(*ssa.BinOp); isB && ((bo.Op == token.NEQ && p) || (bo.Op == token.EQL && !p)) && (isNilConst(bo.X) || isNilConst(bo.Y)) {
+					if a := sliceOf(cnd); a.hasFieldNamed(fv.Name()) && len(a.Calls) == 0 {
+						okGuard = true
+					}
+				}
+			}
+			if !okGuard {
+				viol = fmt.Sprintf("%s: info.%s is copied under a condition other than `config.Info.%s != nil`: a configured section can then be missing from the document (e.g. an e-mail-only contact judged `empty`)", w.pos(st.Pos()), strings.ToLower(fv.Name()), fv.Name())
+			}
+		})
+		if n != 2 {
+			viol = fmt.Sprintf("expected assignments of Info.Contact and Info.License in %s, found %d", fnk, n)
+		}
+		r.add("C08.c", "guardedby", fnk+":contact+license-iff-configured", e.Ver+": contact and license appear in the document exactly when the configuration has them", []string{fnk}, sites, viol)
+	}
+
 	// C08.f precondition of the delegated $ref-closure check
 	checkRefConstruction(c, r)
 
